@@ -62,6 +62,7 @@ struct InflateSession {
                                 fault_end_byte = (o.fault_end_bit + 7) / 8;
                                 switch (o.fault) {
                                 case GF_UNASSIGNED:
+                                case GF_UNASSIGNED_DIST:
                                 case GF_LEN_SYM_286:
                                 case GF_DIST_SYM_30: expect_class = ISAL_INVALID_SYMBOL; break;
                                 case GF_DIST_TOO_FAR: expect_class = ISAL_INVALID_LOOKBACK; break;
